@@ -83,6 +83,7 @@ type c12Mount struct {
 	Default  bool     `json:"default,omitempty"` // created by the core, not by the harness
 	Cubby    bool     `json:"cubbyhole,omitempty"`
 	Dead     bool     `json:"dead,omitempty"`
+	Odd      bool     `json:"holds_key_with_empty_segment,omitempty"`
 	Keys     []string `json:"-"` // raw keys stored through this mount
 	Data     []string `json:"-"` // data/ paths written through this mount
 }
@@ -737,6 +738,11 @@ func (t *c12Tok) grants(n *c12NS, p string) bool {
 		}
 	}
 	return false
+}
+
+// c12OddKey: the key has an empty path segment (leading, doubled or trailing slash).
+func c12OddKey(k string) bool {
+	return strings.HasPrefix(k, "/") || strings.HasSuffix(k, "/") || strings.Contains(k, "//")
 }
 
 // ---------------------------------------------------------------- canonical keys
